@@ -1,11 +1,16 @@
 package main
 
 import (
+	"context"
 	"encoding/json"
 	"flag"
 	"fmt"
 	"os"
+	"os/exec"
 	"sort"
+	"strings"
+	"sync/atomic"
+	"time"
 )
 
 type propCheck struct {
@@ -63,6 +68,10 @@ func main() {
 			fmt.Printf("REPLAY property=%s: case passes on this tree\n", id)
 			os.Exit(0)
 		}
+		if strings.HasPrefix(f.Class, "replay/") {
+			fmt.Printf("REPLAY property=%s: this case cannot be replayed on its own: [%s] %s\n", id, f.Class, f.What)
+			os.Exit(3)
+		}
 		fmt.Printf("REPLAY property=%s: case FAILS: [%s] %s\n", id, f.Class, f.What)
 		os.Exit(1)
 	}
@@ -71,7 +80,82 @@ func main() {
 	}
 	c := newCtx(id, *tier)
 	p.run(c)
+	if c.Workers > 1 && os.Getenv("VERIF_SEQUENTIAL_RERUN") == "" {
+		if why := c.needsSequentialRun(p); why != "" {
+			// the workers of this run used independent values in parallel. If that alone can explain what was seen
+			// (interference between independent values is C19's subject, not this property's), only a run with one
+			// worker can decide this property.
+			fmt.Printf("NOTE: %s; repeating %s with one worker, whose verdict is the one reported\n", why, id)
+			cmd := exec.Command(os.Args[0], id, "-tier", *tier)
+			cmd.Env = append(os.Environ(), "VERIF_WORKERS=1", "VERIF_SEQUENTIAL_RERUN=1")
+			if os.Getenv("VERIF_BUDGET_S") == "" {
+				cmd.Env = append(cmd.Env, "VERIF_BUDGET_S=1200")
+			}
+			cmd.Stdout, cmd.Stderr = os.Stdout, os.Stderr
+			err := cmd.Run()
+			if err == nil {
+				os.Exit(0)
+			}
+			if ee, ok := err.(*exec.ExitError); ok {
+				os.Exit(ee.ExitCode())
+			}
+			fmt.Fprintln(os.Stderr, err)
+			os.Exit(2)
+		}
+	}
 	os.Exit(c.Finish())
+}
+
+// needsSequentialRun decides whether the verdict of a parallel run has to be re-established with one worker:
+// yes if a worker was disturbed (library panic outside a try, non-reproducible failure), or if a recorded failure
+// does not fail when its replay case is evaluated alone in a fresh process.
+func (c *Ctx) needsSequentialRun(p *propCheck) string {
+	if atomic.LoadInt32(&c.disturbed) == 1 {
+		return "a parallel worker was disturbed (library panic outside a guarded call, or a failure that did not reproduce)"
+	}
+	if p.replay == nil {
+		return ""
+	}
+	known := map[string]bool{}
+	for _, k := range loadKnown() {
+		if k.Property == c.Prop && k.Status == "open" {
+			known[k.Classifier] = true
+		}
+	}
+	var classes []string
+	for cl := range c.findings {
+		if !known[cl] {
+			classes = append(classes, cl)
+		}
+	}
+	sort.Strings(classes)
+	if len(classes) > 12 {
+		classes = classes[:12]
+	}
+	for _, cl := range classes {
+		a := c.findings[cl]
+		rep := map[string]interface{}{"property": c.Prop, "classifier": cl, "kind": a.first.Kind, "case": a.first.Replay}
+		b, err := json.Marshal(rep)
+		if err != nil {
+			continue
+		}
+		f, err := os.CreateTemp("", "verif-confirm-*.json")
+		if err != nil {
+			continue
+		}
+		f.Write(b)
+		f.Close()
+		ctx, cancel := context.WithTimeout(context.Background(), 120*time.Second)
+		cmd := exec.CommandContext(ctx, os.Args[0], c.Prop, "-replay", f.Name())
+		cmd.Env = append(os.Environ(), "VERIF_WORKERS=1", "VERIF_SEQUENTIAL_RERUN=1")
+		err = cmd.Run()
+		cancel()
+		os.Remove(f.Name())
+		if err == nil { // exit 0: the case passes when evaluated alone
+			return fmt.Sprintf("the failure [%s] does not fail when its case is evaluated alone in a fresh process", cl)
+		}
+	}
+	return ""
 }
 
 func usage() {
